@@ -3,6 +3,7 @@ package formats
 import (
 	"bufio"
 	"encoding/json"
+	"errors"
 	"fmt"
 	"io"
 	"os"
@@ -92,6 +93,14 @@ func (fs *Sniffer) SniffReader(f io.ReadSeeker) (Format, error) {
 				return "", fmt.Errorf("unknown SBOM format")
 			}
 		}
+	}
+
+	// Well-formed JSON whose declaration members have the wrong type is still
+	// JSON: it must not be scanned as tag-value text, where a string value
+	// mentioning "SPDXVersion: SPDX-2.3" would pass for a declaration.
+	var typeErr *json.UnmarshalTypeError
+	if errors.As(err, &typeErr) {
+		return "", fmt.Errorf("unknown SBOM format")
 	}
 
 	// not JSON.  Parse line-by-line with string hacks
